@@ -12,7 +12,9 @@ import (
 	"sort"
 	"strings"
 	"sync"
+	"sync/atomic"
 	"testing"
+	"time"
 
 	"early.verif"
 	otp "github.com/ja7ad/otp"
@@ -37,7 +39,8 @@ type tape struct {
 	chunk int // max bytes handed out per Read (short reads); 0 = unlimited
 	log   []byte
 	used  int
-	reads [][2]int // (offset, n) per Read call since the last mark
+	reads [][2]int     // (offset, n) per Read call since the last mark
+	slow  atomic.Int64 // nanoseconds each Read takes before it delivers (0 = at once)
 }
 
 var theTape = &tape{konst: -1}
@@ -62,6 +65,9 @@ func (s *tape) content(off, n int) []byte {
 }
 
 func (s *tape) Read(p []byte) (int, error) {
+	if d := time.Duration(s.slow.Load()); d > 0 {
+		time.Sleep(d) // a slow source: callers that arrive meanwhile pile up behind whoever is reading
+	}
 	s.mu.Lock()
 	defer s.mu.Unlock()
 	n := len(p)
@@ -363,12 +369,18 @@ func TestC08_Histories(t *testing.T) {
 type c08ConcCase struct {
 	Seed uint64  `json:"seed"`
 	Ops  [][]int `json:"ops"` // per goroutine
+	// microseconds every read of the source takes (0 = none): with a slow source the callers of a library that serves
+	// several waiting requests from one read arrive while a read is under way and are served together
+	SlowMicros int `json:"slow_us,omitempty"`
 }
 
 func checkC08Conc(c c08ConcCase) (v verdict) {
 	st := theTape
 	st.set(c.Seed, -1, 0)
+	st.slow.Store(int64(c.SlowMicros) * 1000)
+	defer st.slow.Store(0)
 	var outs []string
+	var sized [][2]int // (hash, key bytes) per secret handed out
 	var mu sync.Mutex
 	var firstErr error
 	withReader(st, func() {
@@ -388,6 +400,9 @@ func checkC08Conc(c c08ConcCase) (v verdict) {
 						firstErr = err
 					} else {
 						outs = append(outs, s)
+						if b, isB32 := secretBytes(s); isB32 {
+							sized = append(sized, [2]int{a, len(b)})
+						}
 					}
 					mu.Unlock()
 				}
@@ -398,6 +413,12 @@ func checkC08Conc(c c08ConcCase) (v verdict) {
 	if firstErr != nil {
 		st.take(nil, 0)
 		return bad(true, nil, "concurrent RandomSecret: %v", firstErr)
+	}
+	for _, sz := range sized {
+		if sz[1] != sizeOf(sz[0]) {
+			st.take(nil, 0)
+			return bad(true, nil, "concurrent RandomSecret(%d) returned a secret of %d key bytes; want %d", sz[0], sz[1], sizeOf(sz[0]))
+		}
 	}
 	var keys [][]byte
 	total := 0
@@ -465,13 +486,14 @@ func checkC08Conc(c c08ConcCase) (v verdict) {
 }
 
 var c08Conc = newPart("C08", "concurrent",
-	"rapid: 2..8 goroutines each issuing 1..8 RandomSecret calls concurrently against the recording stream (full reads); oracle: the multiset of returned secrets equals the multiset of base32(chunk) over the reads the source served (disjoint parts of the stream, each byte used once); non-trivial = >= 2 goroutines",
+	"rapid: 2..8 goroutines each issuing 1..8 RandomSecret calls concurrently against the recording stream (full reads; in half of the cases every read of the source takes 100 us or 1 ms, so that callers pile up behind a read under way); oracle: every secret has the size of ITS hash; the multiset of returned secrets equals the multiset of base32(chunk) over the reads the source served (disjoint parts of the stream, each byte used once); non-trivial = >= 2 goroutines",
 	checkC08Conc)
 
 func TestC08_Concurrent(t *testing.T) {
 	c08Conc.rapid(t, ev.Pick(500, 10_000), func(t *rapid.T) c08ConcCase {
 		return c08ConcCase{Seed: rapid.Uint64().Draw(t, "seed"),
-			Ops: rapid.SliceOfN(rapid.SliceOfN(rapid.SampledFrom([]int{0, 1, 2, 0, 1, 2, 3, 77}), 1, 8), 2, 8).Draw(t, "ops")}
+			Ops:        rapid.SliceOfN(rapid.SliceOfN(rapid.SampledFrom([]int{0, 1, 2, 0, 1, 2, 3, 77}), 1, 8), 2, 8).Draw(t, "ops"),
+			SlowMicros: rapid.SampledFrom([]int{0, 0, 100, 1000}).Draw(t, "slow")}
 	})
 }
 
